@@ -84,6 +84,36 @@ func newUpstream(kind poolKind) (*upstream, error) {
 	return u, nil
 }
 
+// Listeners are reused across histories (a fresh listener per history exhausts the ephemeral ports in the thorough
+// tier); the connections of a finished history are aborted (SO_LINGER 0: no TIME_WAIT) and forgotten.
+var upFree = map[poolKind]chan *upstream{kHTTP1: make(chan *upstream, 64), kPingPong: make(chan *upstream, 64)}
+
+func getUpstream(kind poolKind) (*upstream, error) {
+	select {
+	case u := <-upFree[kind]:
+		return u, nil
+	default:
+		return newUpstream(kind)
+	}
+}
+
+func (u *upstream) recycle() {
+	u.mu.Lock()
+	for _, c := range u.conns {
+		if tc, ok := c.c.(*net.TCPConn); ok {
+			tc.SetLinger(0)
+		}
+		c.c.Close()
+	}
+	u.conns = nil
+	u.mu.Unlock()
+	select {
+	case upFree[u.kind] <- u:
+	default:
+		u.ln.Close()
+	}
+}
+
 func (u *upstream) acceptLoop() {
 	for {
 		c, err := u.ln.Accept()
@@ -361,7 +391,7 @@ type world struct {
 var worldSeq uint64
 
 func newWorld(kind poolKind, maxConn, maxReq uint64) (*world, error) {
-	up, err := newUpstream(kind)
+	up, err := getUpstream(kind)
 	if err != nil {
 		return nil, err
 	}
@@ -388,10 +418,16 @@ func newWorld(kind poolKind, maxConn, maxReq uint64) (*world, error) {
 }
 
 func (w *world) close() {
+	w.up.recycle() // upstream side aborts first: neither side is left in TIME_WAIT
 	for _, c := range w.clients {
+		waitFor(200*time.Millisecond, func() bool { return c.closedMosnSide() })
 		c.conn.Close(api.NoFlush, api.LocalClose)
 	}
-	w.up.close()
+	w.host.mu.Lock()
+	for _, c := range w.host.created {
+		c.Close(api.NoFlush, api.LocalClose)
+	}
+	w.host.mu.Unlock()
 }
 
 func waitFor(d time.Duration, cond func() bool) bool {
